@@ -30,6 +30,7 @@ import (
 	"github.com/welllog/golib/listz"
 	"github.com/welllog/golib/randz"
 	"github.com/welllog/golib/setz"
+	"github.com/welllog/golib/zzsim/scrand"
 )
 
 var prop = os.Getenv("VERIF_CONF_PROP")
@@ -283,6 +284,11 @@ func (x *inst) Do(t int, op sim.Op) sim.Rec {
 			st.sg = &sg
 			st.cg = &randz.CountGenerator{}
 			st.cg.AddRule(100+t, 10, 5, 3)
+		}
+		if op.V%4 == 1 {
+			// the entropy source fails during this step: the fall-back path runs
+			scrand.SetFailing(true)
+			defer scrand.SetFailing(false)
 		}
 		switch op.K % 6 {
 		case 4:
